@@ -136,6 +136,71 @@ def run_bitmask(ck, case):
         ck.violation("C11/bitmask/growth", "bit-mask engine does not produce the true growth function", dict(rep, observed=list(sizes)))
 
 
+def gen_bitmask_case(rng):
+    """Random generator sets on n = 9..11 points inside the bit-mask engine's documented domain, with a depth limit
+    that keeps the explored ball small.  Pieces: cyclic shifts, adjacent transpositions (biased to the trailing
+    positions >= 8), cycles inside the trailing block, prefix reversals, random permutations; closed under inverses
+    or not.  A set is rejected when some expansion batch would fall into a single chunk (the documented domain:
+    'generators move the trailing positions')."""
+    for _ in range(200):
+        n = rng.choice([9, 10, 10, 11, 11])
+        ident = list(range(n))
+        pieces = []
+        for _ in range(rng.randint(2, 4)):
+            r = rng.random()
+            if r < 0.25:
+                k = rng.choice([1, 1, n - 1, 2])
+                pieces.append([(i + k) % n for i in range(n)])
+            elif r < 0.5:
+                i = rng.choice([rng.randrange(n - 1), rng.randrange(7, n - 1)])
+                p = list(ident)
+                p[i], p[i + 1] = p[i + 1], p[i]
+                pieces.append(p)
+            elif r < 0.65 and n >= 10:
+                tail = list(range(8, n))
+                p = list(ident)
+                for a, b in zip(tail, tail[1:] + tail[:1]):
+                    p[a] = b
+                pieces.append(p)
+            elif r < 0.8:
+                k = rng.randint(2, n)
+                pieces.append(list(range(k - 1, -1, -1)) + list(range(k, n)))
+            else:
+                pieces.append(graphs.rand_perm(rng, n))
+        if rng.random() < 0.5:
+            pieces += [graphs.inv_perm(p) for p in pieces]
+        gens = []
+        for p in pieces:
+            if p not in gens and p != ident:
+                gens.append(p)
+        if len(gens) < 2:
+            continue
+        central = ident if rng.random() < 0.7 else graphs.rand_perm(rng, n)
+        # explore with plain tuples until the ball holds ~20000 states; check the single-chunk condition on the way
+        seen = {tuple(central)}
+        layer = [tuple(central)]
+        depth, ok = 0, True
+        while layer and len(seen) < 20000 and depth < 12:
+            by_chunk = {}
+            for st in layer:
+                by_chunk.setdefault(st[8:], []).append(st)
+            nxt = []
+            for sts in by_chunk.values():
+                nb = {tuple(st[g[i]] for i in range(n)) for st in sts for g in gens}
+                if len(nb) > 1 and len({x[8:] for x in nb}) == 1:
+                    ok = False
+                for x in nb:
+                    if x not in seen:
+                        seen.add(x)
+                        nxt.append(x)
+            layer = nxt
+            depth += 1
+        if not ok or depth < 2:
+            continue
+        return {"gd": graphs.GDef("perm", gens, list(central), tag="bitmask-random").to_json(), "max_diameter": None if not layer else depth, "engine": "bitmask"}
+    raise RuntimeError("no bitmask case")
+
+
 def check_rank_tables(ck):
     """rank / unrank of prefixes against the model's lexicographic rank (the tables are built at import)."""
     drv = ck.driver()
@@ -256,15 +321,20 @@ def main():
         cases.append({"gd": graphs.GDef("perm", [p1, [1, 0] + list(range(2, n)), list(range(n - 3)) + [n - 1, n - 3, n - 2]], list(range(n)), tag="n10").to_json(), "max_diameter": 9})
         rp = graphs.rand_perm(ck.rng, 9)
         cases.append({"gd": graphs.GDef("perm", [rp, lrx[0], lrx[2]], list(range(9)), tag="random9").to_json(), "max_diameter": None})
+    n = 10
+    l10 = [(i + 1) % n for i in range(n)]
+    cases.append({"gd": graphs.GDef("perm", [l10, [1, 0] + list(range(2, n)), list(range(8)) + [9, 8]], list(range(n)), tag="n10-trailing-swap").to_json(), "max_diameter": 6})
+    for _ in range(8 if not ck.thorough else 80):
+        cases.append(gen_bitmask_case(ck.rng))
     for c in cases:
         if ck.enough():
             break
-        run_bitmask(ck, c)
+        ck.guard(run_bitmask, ck, c)
     ck.assumptions = [
         "numba JIT arithmetic of the bit-mask engine is modelled (bit-set BFS over ranks), not verified; rank/unrank are compared with the model's lexicographic rank on sampled chunks",
         "bit-mask domain: generators must move the trailing positions (otherwise paint_gray indexes an empty group list)",
     ]
-    ck.finish(rule="NumPy engine on random distinct inverse-closed generator sets with coset central states (single word); interactive engine on generated graphs from start sets with duplicates; unthinned BFS-mode walks; bit-mask engine on n = 9 (10 thorough) incl. a non-inverse-closed set and a depth limit; all against the proven reference BFS")
+    ck.finish(rule="NumPy engine on random distinct inverse-closed generator sets with coset central states (single word); interactive engine on generated graphs from start sets with duplicates; unthinned BFS-mode walks; bit-mask engine on n = 9 (full) and random generator sets on n = 9..11 (cyclic shifts, transpositions and cycles inside the trailing block, prefix reversals, random permutations; inverse-closed or not) with depth limits; all against the proven reference BFS")
 
 
 if __name__ == "__main__":
